@@ -116,7 +116,7 @@ Lemma rows_nodecl local prefix (a : list attribute) attrs' :
   Forall p_attribute_ok' a -> build_attrs ents ext a = IOk attrs' ->
   attr_rows dt local prefix attrs' = map KTok (map snd (Infoset.sort_by fst (map spec_row a))).
 Proof.
-  intros Hdefs Ha Hat. unfold attr_rows. cbv zeta. rewrite Hdefs. unfold element_attributes, namespace_attributes. cbn [add_defaults].
+  intros Hdefs Ha Hat. unfold attr_rows. cbv zeta. rewrite Hdefs. unfold element_attributes, namespace_attributes. cbn [add_defaults add_ns_defaults].
   apply rows_sorted.
   - rewrite <- map_app, map_map.
     etransitivity; [apply Permutation_map; apply filter_partition_perm|].
